@@ -14,6 +14,8 @@ def run(pid, tier):
     cfgs = ["release"]
     if tier == "thorough":
         cfgs = getattr(mod, "THOROUGH_CFGS", ["release", "dev"])
+    if os.environ.get("VERIF_CFGS"):          # development aid: explicit configuration list
+        cfgs = os.environ["VERIF_CFGS"].split(",")
     R = Report(pid, tier, mod.EXPLANATION)
     R.residual = list(getattr(mod, "RESIDUAL", []))
     R.assumptions = list(getattr(mod, "ASSUMPTIONS", []))
